@@ -47,6 +47,7 @@ use trust_runtime::RuntimeMetadata;
 pub struct HandlerInfo {
     pub name: String,
     pub module: String,
+    pub fn_name: String,
     pub takes_params: bool,
 }
 
@@ -67,6 +68,7 @@ fn load_tables(path: &str) -> Tables {
             handlers.push(HandlerInfo {
                 name: h["name"].as_str().expect("name").to_string(),
                 module: module.clone(),
+                fn_name: h["fn"].as_str().expect("fn").to_string(),
                 takes_params: h["takes_params"].as_bool().expect("takes_params"),
             });
         }
@@ -591,7 +593,7 @@ fn hexs(s: &str) -> String {
 
 /// `good`: for config.set entries whose value the model does not interpret, whether the palette
 /// entry is a well-formed value for that key (generator knowledge, not the implementation's answer).
-fn abstract_line(bytes: &[u8], eff: bool, nonce: &str, bad_keys: &[String]) -> String {
+fn abstract_line(bytes: &[u8], eff: bool, nonce: &str, bad_keys: &[String], cred: &str) -> String {
     let raw = hex(bytes);
     let text = match std::str::from_utf8(bytes) {
         Ok(t) => t,
@@ -611,7 +613,7 @@ fn abstract_line(bytes: &[u8], eff: bool, nonce: &str, bad_keys: &[String]) -> S
         None => "none".into(),
     };
     let mut s = format!(
-        "req id={} type={} auth={} eff={} nonce={}",
+        "req cred={cred} id={} type={} auth={} eff={} nonce={}",
         req.id,
         hexs(&req.r#type),
         auth,
@@ -889,7 +891,69 @@ fn garbage_params(rng: &mut Rng) -> J {
     .clone()
 }
 
-fn variants_for(name: &str, w: &World, t: &Tables, rng: &mut Rng) -> Vec<Variant> {
+/// The palette is keyed by the handler FUNCTION the dispatcher calls, so that a request that was renamed
+/// (or added under a second name) on the dispatcher side still gets parameters that make it effective.
+fn palette_name<'a>(name: &'a str, t: &'a Tables) -> &'a str {
+    let Some(h) = t.handlers.iter().find(|h| h.name == name) else {
+        return name;
+    };
+    match h.fn_name.as_str() {
+        "handle_status" => "status",
+        "handle_health" => "health",
+        "handle_task_stats" => "tasks.stats",
+        "handle_events_tail" => "events.tail",
+        "handle_faults" => "faults",
+        "handle_config_get" => "config.get",
+        "handle_config_set" => "config.set",
+        "handle_historian_query" => "historian.query",
+        "handle_historian_alerts" => "historian.alerts",
+        "handle_io_list" => "io.list",
+        "handle_hmi_schema_get" => "hmi.schema.get",
+        "handle_hmi_values_get" => "hmi.values.get",
+        "handle_hmi_trends_get" => "hmi.trends.get",
+        "handle_hmi_alarms_get" => "hmi.alarms.get",
+        "handle_hmi_descriptor_get" => "hmi.descriptor.get",
+        "handle_hmi_descriptor_update" => "hmi.descriptor.update",
+        "handle_hmi_scaffold_reset" => "hmi.scaffold.reset",
+        "handle_hmi_alarm_ack" => "hmi.alarm.ack",
+        "handle_hmi_write" => "hmi.write",
+        "handle_io_read" => "io.read",
+        "handle_io_write" => "io.write",
+        "handle_io_force" => "io.force",
+        "handle_io_unforce" => "io.unforce",
+        "handle_pause" => "pause",
+        "handle_resume" => "resume",
+        "handle_step" => "step_in",
+        "handle_debug_state" => "debug.state",
+        "handle_debug_stops" => "debug.stops",
+        "handle_debug_stack" => "debug.stack",
+        "handle_debug_scopes" => "debug.scopes",
+        "handle_debug_variables" => "debug.variables",
+        "handle_debug_evaluate" => "debug.evaluate",
+        "handle_debug_breakpoint_locations" => "debug.breakpoint_locations",
+        "handle_breakpoints_set" => "breakpoints.set",
+        "handle_breakpoints_clear" => "breakpoints.clear",
+        "handle_breakpoints_list" => "breakpoints.list",
+        "handle_breakpoints_clear_all" => "breakpoints.clear_all",
+        "handle_breakpoints_clear_id" => "breakpoints.clear_id",
+        "handle_eval" => "eval",
+        "handle_set" => "set",
+        "handle_var_force" => "var.force",
+        "handle_var_unforce" => "var.unforce",
+        "handle_var_forced" => "var.forced",
+        "handle_shutdown" => "shutdown",
+        "handle_restart" => "restart",
+        "handle_bytecode_reload" => "bytecode.reload",
+        "handle_pair_start" => "pair.start",
+        "handle_pair_claim" => "pair.claim",
+        "handle_pair_list" => "pair.list",
+        "handle_pair_revoke" => "pair.revoke",
+        _ => name,
+    }
+}
+
+fn variants_for(real_name: &str, w: &World, t: &Tables, rng: &mut Rng) -> Vec<Variant> {
+    let name = palette_name(real_name, t);
     let code = w.pending_code.as_ref().map(|c| c.0.clone()).unwrap_or_else(|| "000000".into());
     let alarm = w.alarm_id.clone().unwrap_or_else(|| "none".into());
     let role = rng.pick(&["viewer", "operator", "engineer", "admin", " Admin ", "ENGINEER", "root", ""]).to_string();
@@ -984,7 +1048,7 @@ fn variants_for(name: &str, w: &World, t: &Tables, rng: &mut Rng) -> Vec<Variant
         ],
         _ => vec![v_eff(None)],
     };
-    let info = t.handlers.iter().find(|h| h.name == name);
+    let info = t.handlers.iter().find(|h| h.name == real_name);
     let takes = info.map(|h| h.takes_params).unwrap_or(true);
     if name != "config.set" {
         // garbage params: ineffective for handlers that read params (except the ones with optional
@@ -1048,6 +1112,20 @@ fn do_line(
     bad_keys: &[String],
     cw: &mut CaseWriter,
 ) -> (String, Option<J>) {
+    do_line_as(w, client, bytes, eff, bad_keys, cw, "-")
+}
+
+/// `cred`: the generator's name of the credential (only where it is certain what it maps to: the
+/// single request of an exhaustive case); read by the table-independent oracle in checks/c18.py.
+fn do_line_as(
+    w: &World,
+    client: &mut Client,
+    bytes: &[u8],
+    eff: bool,
+    bad_keys: &[String],
+    cw: &mut CaseWriter,
+    cred: &str,
+) -> (String, Option<J>) {
     let before = w.probes();
     let t0 = std::time::Instant::now();
     let reply = client.send(bytes);
@@ -1072,7 +1150,7 @@ fn do_line(
         .and_then(J::as_str)
         .unwrap_or("")
         .to_string();
-    cw.out.line(abstract_line(bytes, eff, &nonce, bad_keys));
+    cw.out.line(abstract_line(bytes, eff, &nonce, bad_keys, cred));
     let fxs = if fx.is_empty() { "-".to_string() } else { fx.join(",") };
     cw.out.line(format!("impl {class} fx={fxs}"));
     let short = class.split(' ').last().unwrap_or("").split(':').next().unwrap_or("").to_string();
@@ -1251,7 +1329,7 @@ fn run_case(n: u64, args: &Args, base: &mut Base, t: &Tables, out: &mut Out) {
         let bytes = request_bytes(1 + rng.below(99999), &name, cred_token(cred).as_deref(), var.params.as_ref(), &mut rng);
         let mut client = w.connect();
         let mut cw = CaseWriter { out, nontrivial: false };
-        do_line(&w, &mut client, &bytes, var.eff, &var.bad_keys, &mut cw);
+        do_line_as(&w, &mut client, &bytes, var.eff, &var.bad_keys, &mut cw, cred);
         claimcheck(&w, &mut cw);
         cw_nontrivial = cw.nontrivial;
         drop(client);
@@ -1357,7 +1435,16 @@ fn run_case(n: u64, args: &Args, base: &mut Base, t: &Tables, out: &mut Out) {
                 let (_, v) = do_line(&w, &mut client, &b, true, &[], &mut cw);
                 let minted = v.as_ref().and_then(|v| v["result"]["token"].as_str()).map(str::to_string);
                 let auth = minted.or_else(|| cred_token("wrong"));
-                rand_target(&mut rng, &w, &mut cw, &mut client, auth);
+                if rng.chance(1, 2) {
+                    // what did the minted token really get?  an admin-only, an engineer-only, an operator-only request
+                    let (ty, params) = rng
+                        .pick(&[("pair.list", None), ("io.read", None), ("restart", Some(json!({"mode": "warm"}))), ("shutdown", None)])
+                        .clone();
+                    let b = request_bytes(14, ty, auth.as_deref(), params.as_ref(), &mut rng);
+                    do_line(&w, &mut client, &b, true, &[], &mut cw);
+                } else {
+                    rand_target(&mut rng, &w, &mut cw, &mut client, auth);
+                }
             }
             6 => {
                 // expiry of pairing tokens and of the pending code
